@@ -7,6 +7,11 @@
 (* have crashed or hung, and the Z3 context it used must be its own: the   *)
 (* same at the start and the end of its run, and different from the        *)
 (* context of every other thread of the group and of the main thread.      *)
+(* Two further clauses bind "as if used alone" directly: every answer that *)
+(* is a function of the history (no model choice) equals the answer the    *)
+(* same history gave when run ALONE in a fresh process (tr.solo), and the   *)
+(* variables the library named for this thread are not the variables it    *)
+(* named for another thread.                                               *)
 (***************************************************************************)
 EXTENDS SolverAbs, Json, IOUtils
 
@@ -20,7 +25,17 @@ CheckTrace(tr) ==
       ctxBad == \/ tr.ctx # tr.ctx_end
                 \/ tr.ctx = tr.main_ctx
                 \/ \E i \in 1..Len(tr.all_ctx) : i # tr.thread + 1 /\ tr.all_ctx[i] = tr.ctx
-  IN res[2] \cup (IF tr.crash # "" THEN {<<0, "thread-crashed">>} ELSE {})
+      \* calls whose answer is a function of the history alone (no choice among models is involved)
+      DetCalls == {"satisfiable", "is_true", "is_false", "min", "max", "solution"}
+      soloBad == IF tr.crash # "" THEN {} ELSE
+                 IF Len(tr.solo) # Len(tr.ev) THEN {<<0, "differs-from-alone">>} ELSE
+                 {<<k, "differs-from-alone">> : k \in {j \in 1..Len(tr.ev) :
+                      /\ tr.ev[j].call \in DetCalls
+                      /\ (tr.ev[j].ret # tr.solo[j].ret \/ (tr.ev[j].exc # "") # tr.solo[j].failed)}}
+      freshBad == \E a \in 1..Len(tr.fresh) : \E b \in 1..Len(tr.other_fresh) : tr.fresh[a] = tr.other_fresh[b]
+  IN res[2] \cup soloBad
+            \cup (IF tr.crash = "" /\ freshBad THEN {<<0, "fresh-name-collision">>} ELSE {})
+            \cup (IF tr.crash # "" THEN {<<0, "thread-crashed">>} ELSE {})
             \cup (IF tr.crash = "" /\ ctxBad THEN {<<0, "context-shared">>} ELSE {})
 
 ASSUME LET Trace == ndJsonDeserialize(IOEnv.TRACE_FILE) IN
